@@ -400,7 +400,7 @@ fn check_grid(rows: &[Tags], f: &F) -> Verdict {
 
 pub fn run(tier: Tier) -> i32 {
     let mut run = Run::new("C07", tier, "model_checking");
-    run.rule = "programs = filter trees built from the public node structs: every single leaf (has/missing over 8 paths of 1-4 segments; 6 operators x 13 literals of every literal kind x 4 paths) on 144 records (tag a over 24 values of every kind incl. Null, lists, nested dicts; b, n present/absent); every and/or/parens shape with <= 3 leaves over a kind-distinct leaf core; `*==` against a caller-supplied resolver over 48 ref worlds (chains 0-3, 1- and 2-cycles, dangling); Grid::filter / filter_all on every grid of <= 3 rows over 8 records. Oracle: reference evaluator written from the statement (unit-mismatched ordering = unconstrained, skipped). states = filters, transitions = (filter, record) evaluations = traces validated; non-trivial = filter that is true on some record and false on another".into();
+    run.rule = "programs = filter trees built from the public node structs: every single leaf (has/missing over 8 paths of 1-4 segments; 6 operators x 13 literals of every literal kind x 4 paths) on 144 records (tag a over 24 values of every kind incl. Null, lists, nested dicts; b, n present/absent); every and/or/parens shape with <= 3 leaves over a kind-distinct leaf core and 7 shapes with 4 leaves (and-of-ors, or-of-ands, mixed precedence, nested groups) over a 7/20-leaf core; `*==` against a caller-supplied resolver over 48 ref worlds (chains 0-3, 1- and 2-cycles, dangling); Grid::filter / filter_all on every grid of <= 3 rows over 8 records. Oracle: reference evaluator written from the statement (unit-mismatched ordering = unconstrained, skipped). states = filters, transitions = (filter, record) evaluations = traces validated; non-trivial = filter that is true on some record and false on another".into();
     run.assume("value equality of the filter language: same kind and value, Ref by id, DateTime by instant");
     run.assume("`^symbol` is covered by C13; relationship terms are only exercised for termination (C09)");
     crate::engine::quiet_panics();
@@ -439,6 +439,42 @@ pub fn run(tier: Tier) -> i32 {
         for m in 0..n {
             for s in &shapes3 {
                 run_filter(&s(core[i].clone(), core[j].clone(), core[m].clone()), &recs_small, &dicts_small, local);
+            }
+        }
+    });
+    run.absorb(l);
+
+    // shapes with 4 leaves: over the quick core in the thorough tier, over 7 leaves in the quick tier
+    let core4: Vec<F> = match tier {
+        Tier::Thorough => leaves_core(Tier::Quick),
+        Tier::Quick => vec![
+            F::Has(p("a")),
+            F::Missing(p("b")),
+            F::Cmp(p("a"), Op::Eq, V::num(5.0)),
+            F::Cmp(p("a"), Op::Lt, V::num(5.0)),
+            F::Cmp(p("a"), Op::Ne, V::str("s")),
+            F::Cmp(p("n"), Op::Gt, V::num(5.0)),
+            F::Has(p("a->b")),
+        ],
+    };
+    let shapes4: Vec<fn(F, F, F, F) -> F> = vec![
+        |a, b, c, d| F::Or(vec![F::And(vec![a, b]), F::And(vec![c, d])]),
+        |a, b, c, d| F::And(vec![F::Parens(Box::new(F::Or(vec![a, b]))), F::Parens(Box::new(F::Or(vec![c, d])))]),
+        |a, b, c, d| F::Or(vec![a, F::And(vec![b, c]), d]),
+        |a, b, c, d| F::And(vec![a, F::Parens(Box::new(F::Or(vec![b, F::And(vec![c, d])])))]),
+        |a, b, c, d| F::And(vec![a, b, c, d]),
+        |a, b, c, d| F::Or(vec![a, b, c, d]),
+        |a, b, c, d| F::Or(vec![F::And(vec![a, b, c]), d]),
+    ];
+    let n4 = core4.len();
+    let l = par_for(n4 * n4, |k, local| {
+        let (i, j) = (k / n4, k % n4);
+        for m in 0..n4 {
+            for q in 0..n4 {
+                for s in &shapes4 {
+                    run_filter(&s(core4[i].clone(), core4[j].clone(), core4[m].clone(), core4[q].clone()), &recs_small, &dicts_small, local);
+                    local.count("four-leaf-filters");
+                }
             }
         }
     });
